@@ -418,3 +418,143 @@ func DebugEncodingSiblingsCount(c *core.Ctx) {
 	}
 	fmt.Println(n)
 }
+
+// R04.16: the bit-extraction helpers mean what the layout tables assume.
+//
+// R04.14 compares the (lo, hi) arguments of extractBits with the manuals; that
+// is only meaningful if extractBits(w, lo, hi) returns exactly w[hi:lo] in the
+// low bits and zero above. The helpers are evaluated with BITPROV for every
+// constant (lo, hi) pair that occurs at a call site (and SignExt for every
+// constant sign position).
+func checkExtractHelpers(c *core.Ctx) {
+	st := c.Rule("R04.16", "extractBits / extractBit of the decoder and bitops.ExtractBitsFromU32 / ExtractBitsFromU64 / SignExt, evaluated on symbolic bit vectors (BITPROV) for every constant argument combination that occurs at a call site in the decoder and the two ALUs: extract(w, lo, hi) has w[lo+i] at bit i for i <= hi-lo and zero above; SignExt(x, s) keeps bits 0..s and copies bit s into every higher bit", 40)
+	type key struct {
+		fn     *ssa.Function
+		a1, a2 int64
+	}
+	seen := map[key]bool{}
+	kc := func(v ssa.Value) (int64, bool) {
+		k, ok := v.(*ssa.Const)
+		if !ok || k.Value == nil || k.Value.Kind() != constant.Int {
+			return 0, false
+		}
+		return constant.Int64Val(k.Value)
+	}
+	for _, rel := range []string{instsPkg, emuPkg, cdna3Pkg} {
+		for _, fn := range c.SrcFuncs(rel) {
+			for _, b := range fn.Blocks {
+				for _, in := range b.Instrs {
+					call, ok := in.(*ssa.Call)
+					if !ok {
+						continue
+					}
+					cal := call.Call.StaticCallee()
+					if cal == nil || len(cal.Blocks) == 0 {
+						continue
+					}
+					name := cal.Name()
+					args := call.Call.Args
+					switch name {
+					case "extractBits", "ExtractBitsFromU32", "ExtractBitsFromU64":
+						if len(args) != 3 {
+							continue
+						}
+						lo, ok1 := kc(args[1])
+						hi, ok2 := kc(args[2])
+						if !ok1 || !ok2 || seen[key{cal, lo, hi}] {
+							continue
+						}
+						seen[key{cal, lo, hi}] = true
+						w := 32
+						if name == "ExtractBitsFromU64" {
+							w = 64
+						}
+						wl, _, _ := typeWidth(cal.Params[1].Type())
+						wh, _, _ := typeWidth(cal.Params[2].Type())
+						st.Instances++
+						ev := &bpEval{}
+						got := ev.Call(cal, []pval{pSym("w", w), pConst(uint64(lo), wl), pConst(uint64(hi), wh)})
+						ok := got.kind == pVec
+						if ok {
+							for i := 0; i < 64; i++ {
+								want := pbit{k: '0'}
+								if int64(i) <= hi-lo && int(lo)+i < w {
+									want = pbit{k: 's', src: "w", i: int(lo) + i}
+								}
+								g := got.bits[i]
+								if g.k == 0 {
+									g = pbit{k: '0'}
+								}
+								if g != want {
+									ok = false
+								}
+							}
+						}
+						st.Ob(ok)
+						if !ok {
+							msg := fmt.Sprintf("%s(w, %d, %d) yields %s; expected w[%d:%d] in the low bits and zero above", name, lo, hi, got.render(w), hi, lo)
+							if got.kind != pVec {
+								msg = fmt.Sprintf("%s(w, %d, %d) could not be evaluated: %s", name, lo, hi, ev.why)
+							}
+							c.ReportAt("R04.16", cal, cal.Pos(), fmt.Sprintf("extract:%s:%d:%d", name, lo, hi), msg)
+						}
+					case "extractBit":
+						if len(args) != 2 {
+							continue
+						}
+						pos, ok1 := kc(args[1])
+						if !ok1 || seen[key{cal, pos, -1}] {
+							continue
+						}
+						seen[key{cal, pos, -1}] = true
+						wp, _, _ := typeWidth(cal.Params[1].Type())
+						st.Instances++
+						ev := &bpEval{}
+						got := ev.Call(cal, []pval{pSym("w", 32), pConst(uint64(pos), wp)})
+						ok := got.kind == pVec && got.bits[0] == pbit{k: 's', src: "w", i: int(pos)}
+						for i := 1; ok && i < 32; i++ {
+							if got.bits[i].k != '0' {
+								ok = false
+							}
+						}
+						st.Ob(ok)
+						if !ok {
+							c.ReportAt("R04.16", cal, cal.Pos(), fmt.Sprintf("extract:extractBit:%d", pos), fmt.Sprintf("extractBit(w, %d) yields %s; expected w[%d] in bit 0", pos, got.render(32), pos))
+						}
+					case "SignExt":
+						if len(args) != 2 {
+							continue
+						}
+						sb, ok1 := kc(args[1])
+						if !ok1 || seen[key{cal, sb, -2}] {
+							continue
+						}
+						seen[key{cal, sb, -2}] = true
+						ws, _, _ := typeWidth(cal.Params[1].Type())
+						st.Instances++
+						ev := &bpEval{}
+						got := ev.Call(cal, []pval{pSym("x", 64), pConst(uint64(sb), ws)})
+						ok := got.kind == pVec
+						for i := 0; ok && i < 64; i++ {
+							want := pbit{k: 's', src: "x", i: i}
+							if int64(i) > sb {
+								want = pbit{k: 's', src: "x", i: int(sb)}
+							}
+							if got.bits[i] != want {
+								ok = false
+							}
+						}
+						st.Ob(ok)
+						if !ok {
+							msg := fmt.Sprintf("SignExt(x, %d) yields %s; expected x[%d] in every bit above %d", sb, got.render(64), sb, sb)
+							if got.kind != pVec {
+								msg = fmt.Sprintf("SignExt(x, %d) could not be evaluated: %s", sb, ev.why)
+							}
+							c.ReportAt("R04.16", cal, cal.Pos(), fmt.Sprintf("extract:SignExt:%d", sb), msg)
+						}
+					}
+				}
+			}
+		}
+	}
+}
